@@ -710,6 +710,59 @@ def check_real(case):
     return True, ["real", name, "again" if again else "once"]
 
 
+# ---- one RetryingClient for a long time ---------------------------------------------------------------------------------
+
+class CountingInner:
+    def __init__(self, fails_per_call):
+        self.fails_per_call = fails_per_call
+        self.n = 0
+        self.this = 0
+
+    def op(self, tag):
+        self.n += 1
+        self.this += 1
+        if self.this <= self.fails_per_call:
+            raise Base("attempt %d of call %r" % (self.this, tag))
+        self.this = 0
+        return tag
+
+
+def long_life_cases(tier, seed):
+    for attempts, fails in ((2, 1), (3, 2), (3, 1), (2, 2)):
+        for delay in (0.25, 0):
+            yield {"attempts": attempts, "fails": fails, "delay": delay, "calls": 2600 if tier == "quick" else 70000}
+
+
+def check_long_life(case):
+    """one RetryingClient object used for thousands of calls, each of which needs retries: the thousandth call is retried, slept
+    for and answered like the first"""
+    attempts, fails, delay = case["attempts"], case["fails"], case["delay"]
+    inner = CountingInner(fails)
+    rc = R.RetryingClient(inner, attempts=attempts, retry_delay=delay)
+    sleeps = []
+    saved = R.sleep
+    R.sleep = sleeps.append
+    try:
+        for i in range(case["calls"]):
+            del sleeps[:]
+            before = inner.n
+            try:
+                got = ("ok", rc.op(i))
+            except Base as e:
+                got = ("exc", str(e))
+                inner.this = 0
+            made = inner.n - before
+            want_made = min(fails + 1, attempts)
+            want = ("ok", i) if fails < attempts else ("exc", "attempt %d of call %r" % (attempts, i))
+            want_sleeps = [delay] * (want_made - 1)
+            if got != want or made != want_made or sleeps != want_sleeps:
+                raise Violation(["long-life", "differs-from-the-first-call"], "call number %d on one RetryingClient(attempts=%d, retry_delay=%r), each call failing %d time(s) first: result %r after %d attempt(s) and sleeps %r; expected %r, %d, %r"
+                                % (i + 1, attempts, delay, fails, got, made, sleeps, want, want_made, want_sleeps))
+    finally:
+        R.sleep = saved
+    return True, ["long-life", "attempts=%d" % attempts]
+
+
 # ---- several calls in flight on one RetryingClient --------------------------------------------------------------------
 
 class TurnInner:
@@ -817,6 +870,7 @@ def check_inflight(case):
 
 
 PARTS = [
+    Part("long-lives", "enum", check_long_life, cases=long_life_cases, shards={"quick": 4, "thorough": 8}),
     Part("calls-in-flight-together", "enum", check_inflight, cases=inflight_cases, exhaustive=True),
     Part("around-the-library's-clients", "enum", check_real, cases=real_cases, exhaustive=True),
     Part("library-exception-classes", "enum", check_lib, cases=lib_cases, exhaustive=True, distinct_by_construction=True),
